@@ -2,6 +2,7 @@
 //! vectors given on stdin and prints what it observed; expectations are computed by the Python driver.
 //!   en <dec>        Nat::encode           -> hex
 //!   ei <dec>        Int::encode           -> hex
+//!   rd <hexmsg> <defs> <type>   decode the message at ONE expected type under the given definitions -> ok | err
 //!   st <scenario>   subtype memo scenario (see subtype_case) -> per query "<shared><fresh>"
 //!   dn <hex>        Nat::decode           -> "ok <dec> <consumed>" | "err"
 //!   di <hex>        Int::decode           -> "ok <dec> <consumed>" | "err"
@@ -36,6 +37,19 @@ fn main() {
                 let v: BigInt = p[1].parse().unwrap();
                 let mut o = Vec::new();
                 Int(v).encode(&mut o).unwrap();
+                format!("ok {}", hexe(&o))
+            }
+            // 128-bit host-integer codecs (types/leb128.rs)
+            "e128n" => {
+                let v: u128 = p[1].parse().unwrap();
+                let mut o = Vec::new();
+                candid::types::leb128::encode_nat(&mut o, v).unwrap();
+                format!("ok {}", hexe(&o))
+            }
+            "e128i" => {
+                let v: i128 = p[1].parse().unwrap();
+                let mut o = Vec::new();
+                candid::types::leb128::encode_int(&mut o, v).unwrap();
                 format!("ok {}", hexe(&o))
             }
             "dn" => {
@@ -137,6 +151,7 @@ fn main() {
             // history corpus: "h <perm>" encodes + decodes values of 5 (mutually) recursive / generic derived types in the
             // given order on ONE fresh thread and prints each message; "dv" prints derived field orders
             "st" => subtype_case(&p[1]),
+            "rd" => refdecode_case(&p[1], &p[2], &p[3]),
             "h" => history_case(&p[1]),
             "dv" => derive_orders(),
             // quota corpus: "q <case> <dq|-> <sq|->" decodes message #case at its Rust type under the given quotas
@@ -255,14 +270,10 @@ fn derive_orders() -> String {
 }
 
 
-// ---------------------------------------------------------------- subtype memo scenarios
-// scenario (no blanks): defs '|' queries ; defs = name=TYPE,name=TYPE.. ; queries = T1<T2,T1<T2..
-// TYPE: nat int text null reserved empty bool principal | o(T) v(T) | r(id:T;id:T) | V(id:T;..) | f(T;..>T;..) fq(..) | s(name:T;..) | $name
-// output: for each query two digits: answer with ONE memo shared by all queries of the scenario, answer with a fresh memo
-fn subtype_case(sc: &str) -> String {
-    use candid::types::subtype::{subtype_with_config, Gamma, OptReport};
-    use candid::types::{Field, FuncMode, Function, Label, Type, TypeEnv, TypeInner};
-    struct P<'a> { s: &'a [u8], i: usize }
+
+mod tyx {
+    pub use candid::types::{Field, FuncMode, Function, Label, Type, TypeEnv, TypeInner};
+    pub struct P<'a> { pub s: &'a [u8], pub i: usize }
     impl<'a> P<'a> {
         fn peek(&self) -> u8 { if self.i < self.s.len() { self.s[self.i] } else { 0 } }
         fn eat(&mut self, c: u8) { assert_eq!(self.peek(), c, "at {}", self.i); self.i += 1; }
@@ -289,7 +300,7 @@ fn subtype_case(sc: &str) -> String {
             self.eat(b')');
             v
         }
-        fn ty(&mut self) -> Type {
+        pub fn ty(&mut self) -> Type {
             if self.peek() == b'$' { self.i += 1; return TypeInner::Var(self.ident()).into(); }
             let k = self.ident();
             match k.as_str() {
@@ -325,12 +336,25 @@ fn subtype_case(sc: &str) -> String {
             }
         }
     }
-    let (defs, queries) = sc.split_once('|').unwrap();
-    let mut env = TypeEnv::new();
-    for d in defs.split(',').filter(|d| !d.is_empty()) {
-        let (n, t) = d.split_once('=').unwrap();
-        env.0.insert(n.to_string(), P { s: t.as_bytes(), i: 0 }.ty());
+    pub fn parse_env(defs: &str) -> TypeEnv {
+        let mut env = TypeEnv::new();
+        for d in defs.split(',').filter(|d| !d.is_empty()) {
+            let (n, t) = d.split_once('=').unwrap();
+            env.0.insert(n.to_string(), P { s: t.as_bytes(), i: 0 }.ty());
+        }
+        env
     }
+}
+
+// ---------------------------------------------------------------- subtype memo scenarios
+// scenario (no blanks): defs '|' queries ; defs = name=TYPE,name=TYPE.. ; queries = T1<T2,T1<T2..
+// TYPE: nat int text null reserved empty bool principal | o(T) v(T) | r(id:T;id:T) | V(id:T;..) | f(T;..>T;..) fq(..) | s(name:T;..) | $name
+// output: for each query two digits: answer with ONE memo shared by all queries of the scenario, answer with a fresh memo
+fn subtype_case(sc: &str) -> String {
+    use candid::types::subtype::{subtype_with_config, Gamma, OptReport};
+    use tyx::P;
+    let (defs, queries) = sc.split_once('|').unwrap();
+    let env = tyx::parse_env(defs);
     let mut shared = Gamma::new();
     let mut out = String::new();
     for q in queries.split(',').filter(|q| !q.is_empty()) {
@@ -344,4 +368,15 @@ fn subtype_case(sc: &str) -> String {
         out.push(' ');
     }
     format!("ok {}", out.trim_end())
+}
+
+// ---------------------------------------------------------------- reference decode: a hand-built message at an expected type
+fn refdecode_case(hexmsg: &str, defs: &str, ty: &str) -> String {
+    let bytes = hexd(hexmsg);
+    let env = tyx::parse_env(defs);
+    let t = tyx::P { s: ty.as_bytes(), i: 0 }.ty();
+    match candid::IDLArgs::from_bytes_with_types(&bytes, &env, &[t]) {
+        Ok(_) => "ok".to_string(),
+        Err(_) => "err".to_string(),
+    }
 }
